@@ -301,6 +301,49 @@ def compileN : Nat → N → CM Unit
       emit_ .swap 1
       emit_ .slice
     | .list items => do compileList f items; emit_ .buildList items.toList.length
+    | .set items => do compileList f items; emit_ .buildSet items.toList.length
+    | .map entries => do
+      -- key, value, …; a key is a string literal (an identifier key is its name as a string constant).
+      -- The real compiler ranges over a Go map: with two or more entries the order is not
+      -- determined (finding C05-map-literal-order); the model compiles them as written.
+      let rec go (g : Nat) (l : List N) : CM Unit :=
+        match g, l with
+        | g + 1, k :: v :: rest => do
+          match k with
+          | .str s => emit_ .loadConst (← constant (.str s))
+          | .id x => emit_ .loadConst (← constant (.str x))
+          | _ => fail "compile error: invalid map key type"
+          compileN f v
+          go g rest
+        | _, _ => pure ()
+      go entries.toList.length entries.toList
+      emit_ .buildMap (entries.toList.length / 2)
+    | .pipe stages => do
+      -- `compilePipe`: inside a pipe every call of the current code object compiles to a Partial
+      if (← getCur).2.pipeActive then fail "compile error: invalid nested pipe"
+      match stages with
+      | .cons first rest => do
+        if rest.toList.isEmpty then fail "compile error: the pipe operator requires at least two expressions"
+        compileN f first
+        modCur fun (fs, c) => (fs, { c with pipeActive := true })
+        compilePipeStages f rest
+        modCur fun (fs, c) => (fs, { c with pipeActive := false })
+      | _ => fail "compile error: the pipe operator requires at least two expressions"
+    | .defer_ call => do
+      -- `compileDeferStmt`: callee and arguments now (`compilePartial`), the call at function exit
+      if ← isGlobalLevel then fail "compile error: defer statement outside of a function"
+      match call with
+      | .call fe args => do
+        compileN f fe
+        compileList f args
+        emit_ .partial_ args.toList.length
+      | .mcall obj name args => do
+        compileN f obj
+        emit_ .loadAttr (← addName name)
+        compileList f args
+        emit_ .partial_ args.toList.length
+      | _ => fail "parse error: invalid defer statement"
+      emit_ .defer_
     | .tmpl parts => do
       -- fragments: literal text and expressions alternate as the lexer split them
       compileList f parts
@@ -486,6 +529,18 @@ def compileList : Nat → N → CM Unit
     | .cons h t => do compileN f h; compileList f t
     | _ => pure ()
 
+/-- the stages of a pipe after the first: function on top, `Swap 1`, `Call 1` -/
+def compilePipeStages : Nat → N → CM Unit
+  | 0, _ => fail "compile fuel"
+  | f + 1, stages =>
+    match stages with
+    | .cons h t => do
+      compileN f h
+      emit_ .swap 1
+      emit_ .call 1
+      compilePipeStages f t
+    | _ => pure ()
+
 /-- `compileProgram` / `compileBlock` / `compileFunctionBlock` statement sequencing.
     `fnBody` = the normalised function body (always ends with a return; nothing appended) -/
 def compileStmts : Nat → N → Bool → CM Unit
@@ -620,7 +675,8 @@ def collectFunctionDeclarations (stmts : List N) : CM Unit := do
 
 def nodeSize : N → Nat
   | .infix _ l r => 1 + nodeSize l + nodeSize r
-  | .neg e | .not e | .expr e | .return_ e | .block e | .prog e | .list e | .tmpl e | .default_ e | .forever e => 1 + nodeSize e
+  | .neg e | .not e | .expr e | .return_ e | .block e | .prog e | .list e | .tmpl e | .default_ e | .forever e
+  | .set e | .map e | .pipe e | .defer_ e => 1 + nodeSize e
   | .tern a b c | .slice a b c | .if_ a b c => 1 + nodeSize a + nodeSize b + nodeSize c
   | .in_ a b | .notin a b | .call a b | .index a b | .switch a b | .case_ a b | .forcond a b | .cons a b => 1 + nodeSize a + nodeSize b
   | .mcall o _ a => 1 + nodeSize o + nodeSize a
